@@ -1,7 +1,7 @@
 open Vio
 let fmt_entry key e =
   match Ttl.restore_cmd key e with
-  | Some cmd -> "cmd " ^ String.concat " " (List.map hex cmd)
+  | Some cmd -> "cmd " ^ Stdlib.String.concat " " (Stdlib.List.map hex cmd)
   | None -> (match e with Ttl.Skip -> "none-ok" | _ -> "none-err")
 
 let run_case (line : string) : string =
@@ -13,6 +13,20 @@ let run_case (line : string) : string =
     let p = parse_resp toks in
     let d = parse_resp toks in
     fmt_entry key (Ttl.scan_entry p d)
+  | "batch" ->
+    (* n keys k0..k(n-1) in one SCAN batch: produce_entries fails as a whole on the first invalid reply, otherwise one RESTORE per entry, in order *)
+    let n = int_of_string (next toks) in
+    let rec go i acc =
+      if i = n then Stdlib.List.rev acc
+      else
+        let p = parse_resp toks in
+        let d = parse_resp toks in
+        go (i + 1) (((nlist_of_string ("k" ^ string_of_int i), p), d) :: acc) in
+    let es = go 0 [] in
+    (match Ttl.batch_cmds es with
+     | None -> "none-err"
+     | Some [] -> "none-ok"
+     | Some cmds -> Stdlib.String.concat " | " (Stdlib.List.map (fun cmd -> "cmd " ^ Stdlib.String.concat " " (Stdlib.List.map hex cmd)) cmds))
   | "pull" ->
     let d = parse_resp toks in
     let p = parse_resp toks in
